@@ -262,3 +262,20 @@ Example C19_tagger_nonvacuous :
   unpack (E_ex8 true) (WDict (Some 1) [(0, WInt)]) (TDc 0) 0 = (Some (VInst 1 0 0 [(0, VInt)]), [PreDe 1; PostDe 1 0], 1) /\
   unpack (E_ex8 false) (WDict (Some 1) [(0, WInt)]) (TDc 0) 0 = (None, [], 0).
 Proof. split; vm_compute; reflexivity. Qed.
+
+(* a discriminated Union: Annotated[Union[Leaf(0), Base(1)], Discriminator("kind", include_subtypes, include_supertypes)],
+   Base <- S (2, tag 2); Leaf has tag 0.  Variants = subclasses of the members, then the members themselves. *)
+Definition E_ex9 : env :=
+  [ mk_cinfo_h [Build_field 0 TInt false] false false true true false None (Some 0) None;
+    mk_cinfo_h [Build_field 1 TInt false] false false true true false None None None;
+    mk_cinfo_h [Build_field 1 TInt false; Build_field 2 TInt false] false false true true false (Some 1) (Some 2) None ].
+Example C19_disc_union_nonvacuous :
+  discu_variants E_ex9 [0; 1] true true = [2; 0; 1] /\
+  unpack E_ex9 (WDict (Some 2) [(1, WInt); (2, WInt)]) (TDiscU [0; 1] true true true) 0
+  = (Some (VInst 2 0 0 [(1, VInt); (2, VInt)]), [PreDe 2; PostDe 2 0], 1) /\
+  unpack E_ex9 (WDict (Some 0) [(0, WInt)]) (TDiscU [0; 1] true true true) 5
+  = (Some (VInst 0 5 5 [(0, VInt)]), [PreDe 0; PostDe 0 5], 6) /\
+  (* without a field every variant is tried: S rejects (f2 missing) after its pre hook, Leaf rejects, Base accepts *)
+  unpack E_ex9 (WDict None [(1, WInt)]) (TDiscU [0; 1] false true true) 0
+  = (Some (VInst 1 0 0 [(1, VInt)]), [PreDe 2; PreDe 0; PreDe 1; PostDe 1 0], 1).
+Proof. repeat split; vm_compute; reflexivity. Qed.
